@@ -73,11 +73,11 @@ func childCorners(rec *rec, seed uint64, batch, start, count int) {
 	defer trk.close()
 	all := corners()
 	for i := start; i < count; i++ {
-		idx := batch*1000 + i
+		idx := batch*8 + i // the parent schedules one child per 8 corners
 		if idx >= len(all) {
 			break
 		}
-		runCorner(rec, trk, seed, i, all[idx])
+		runCorner(rec, trk, seed, idx, all[idx])
 	}
 }
 
